@@ -1,12 +1,15 @@
+pub mod btree;
 pub mod crash;
 pub mod damage;
+pub mod faults;
+pub mod lock;
 pub mod session;
 pub mod wal;
 
 use crate::framework::CheckDef;
 
 pub fn all() -> Vec<CheckDef> {
-	vec![session::c01(), crash::c02(), crash::c03(), session::c04(), session::c05(), session::c06(), crash::c07(), session::c08(), session::c09(), session::c10(), session::c11(), wal::c12(), session::c14(), damage::c16(), session::c17()]
+	vec![session::c01(), crash::c02(), crash::c03(), session::c04(), session::c05(), session::c06(), crash::c07(), session::c08(), session::c09(), session::c10(), session::c11(), wal::c12(), session::c14(), faults::c15(), damage::c16(), session::c17(), btree::c18(), lock::c19()]
 }
 
 pub fn find(id: &str) -> Option<CheckDef> {
